@@ -99,31 +99,32 @@ def presExtra (base : String) (actor target user : Uid) : String :=
 
 /-- presSubsOffline (pres.go:432-475); `tgt` carries the target filters: the messages, in the order of the subscribers -/
 def presSubsOfflineMsgs (t : Topic) (what base : String) (actor target : Uid) (srcIn srcOut : Mode)
-    (tgt : PresMsg) (skipSid : Sid) (offlineOnly : Bool) : List (TName × PresMsg) :=
+    (tgt : PresMsg) (skipSid : Sid) (offlineOnly : Bool) (cmd : String := "") : List (TName × PresMsg) :=
   t.perUser.filterMap (fun (uid, pud) =>
     if pud.deleted || !presOfflineFilter (eff pud) what srcIn srcOut then none
-    else some (uid, { tgt with what := what, src := t.origFor uid, extra := presExtra base actor target uid, skipSid := skipSid,
+    else some (uid, { tgt with what := what, cmd := cmd, src := t.origFor uid, extra := presExtra base actor target uid, skipSid := skipSid,
                                skipTopic := if offlineOnly then t.name else "" }))
 
 def Ctx.presSubsOffline (c : Ctx) (t : Topic) (what base : String) (actor target : Uid) (srcIn srcOut : Mode)
-    (tgt : PresMsg) (skipSid : Sid) (offlineOnly : Bool) : Ctx :=
-  { c with off := c.off ++ presSubsOfflineMsgs t what base actor target srcIn srcOut tgt skipSid offlineOnly }
+    (tgt : PresMsg) (skipSid : Sid) (offlineOnly : Bool) (cmd : String := "") : Ctx :=
+  { c with off := c.off ++ presSubsOfflineMsgs t what base actor target srcIn srcOut tgt skipSid offlineOnly cmd }
 
 /-- presSingleUserOffline (pres.go:587-628) -/
 def presSingleOfflineMsgs (t : Topic) (uid : Uid) (mode : Mode) (what base : String) (actor target : Uid)
-    (skipSid : Sid) (offlineOnly : Bool) : List (TName × PresMsg) :=
+    (skipSid : Sid) (offlineOnly : Bool) (cmd : String := "") : List (TName × PresMsg) :=
   if mode ≠ modeInvalid ∧ presOfflineFilter mode what 0 0 then
-    [(uid, { what := what, src := t.origFor uid, extra := presExtra base actor target uid, wantReply := what.startsWith "?unkn",
+    [(uid, { what := what, cmd := cmd, src := t.origFor uid, extra := presExtra base actor target uid, wantReply := what = "?unkn",
              skipSid := skipSid, skipTopic := if offlineOnly then t.name else "" })]
   else []
 
 def Ctx.presSingleOffline (c : Ctx) (t : Topic) (uid : Uid) (mode : Mode) (what base : String) (actor target : Uid)
-    (skipSid : Sid) (offlineOnly : Bool) : Ctx :=
-  { c with off := c.off ++ presSingleOfflineMsgs t uid mode what base actor target skipSid offlineOnly }
+    (skipSid : Sid) (offlineOnly : Bool) (cmd : String := "") : Ctx :=
+  { c with off := c.off ++ presSingleOfflineMsgs t uid mode what base actor target skipSid offlineOnly cmd }
 
 /-- presSingleUserOfflineOffline (pres.go:632-657) -/
-def Ctx.presSingleOfflineOffline (c : Ctx) (uid : Uid) (orig what base : String) (actor target : Uid) (skipSid : Sid) : Ctx :=
-  { c with off := c.off ++ [(uid, { what := what, src := orig, extra := presExtra base actor target uid, skipSid := skipSid })] }
+def Ctx.presSingleOfflineOffline (c : Ctx) (uid : Uid) (orig what base : String) (actor target : Uid) (skipSid : Sid)
+    (cmd : String := "") : Ctx :=
+  { c with off := c.off ++ [(uid, { what := what, cmd := cmd, src := orig, extra := presExtra base actor target uid, skipSid := skipSid })] }
 
 /-- infoSubsOffline (pres.go:479-501) -/
 def infoSubsOfflineMsgs (t : Topic) (from_ : Uid) (what : String) (seq : Int) (skipSid : Sid) : List (TName × PresMsg) :=
@@ -137,34 +138,34 @@ def Ctx.infoSubsOffline (c : Ctx) (t : Topic) (from_ : Uid) (what : String) (seq
 
 /-! None of them touches anything but the queue of notifications between topics. -/
 section
-variable (c : Ctx) (t : Topic) (orig what base : String) (actor target uid : Uid) (m1 m2 : Mode) (tgt : PresMsg) (sk : Sid) (b : Bool)
-@[simp] theorem Ctx.presSubsOffline_frames : (c.presSubsOffline t what base actor target m1 m2 tgt sk b).frames = c.frames := rfl
-@[simp] theorem Ctx.presSubsOffline_w : (c.presSubsOffline t what base actor target m1 m2 tgt sk b).w = c.w := rfl
-@[simp] theorem Ctx.presSubsOffline_pushes : (c.presSubsOffline t what base actor target m1 m2 tgt sk b).pushes = c.pushes := rfl
-@[simp] theorem Ctx.presSubsOffline_calls : (c.presSubsOffline t what base actor target m1 m2 tgt sk b).calls = c.calls := rfl
-@[simp] theorem Ctx.presSubsOffline_callNo : (c.presSubsOffline t what base actor target m1 m2 tgt sk b).callNo = c.callNo := rfl
-@[simp] theorem Ctx.presSubsOffline_failK : (c.presSubsOffline t what base actor target m1 m2 tgt sk b).failK = c.failK := rfl
-@[simp] theorem Ctx.presSubsOffline_crashK : (c.presSubsOffline t what base actor target m1 m2 tgt sk b).crashK = c.crashK := rfl
-@[simp] theorem Ctx.presSubsOffline_snap : (c.presSubsOffline t what base actor target m1 m2 tgt sk b).snap = c.snap := rfl
-@[simp] theorem Ctx.presSubsOffline_routed : (c.presSubsOffline t what base actor target m1 m2 tgt sk b).routed = c.routed := rfl
-@[simp] theorem Ctx.presSingleOffline_frames : (c.presSingleOffline t uid m1 what base actor target sk b).frames = c.frames := rfl
-@[simp] theorem Ctx.presSingleOffline_w : (c.presSingleOffline t uid m1 what base actor target sk b).w = c.w := rfl
-@[simp] theorem Ctx.presSingleOffline_pushes : (c.presSingleOffline t uid m1 what base actor target sk b).pushes = c.pushes := rfl
-@[simp] theorem Ctx.presSingleOffline_calls : (c.presSingleOffline t uid m1 what base actor target sk b).calls = c.calls := rfl
-@[simp] theorem Ctx.presSingleOffline_callNo : (c.presSingleOffline t uid m1 what base actor target sk b).callNo = c.callNo := rfl
-@[simp] theorem Ctx.presSingleOffline_failK : (c.presSingleOffline t uid m1 what base actor target sk b).failK = c.failK := rfl
-@[simp] theorem Ctx.presSingleOffline_crashK : (c.presSingleOffline t uid m1 what base actor target sk b).crashK = c.crashK := rfl
-@[simp] theorem Ctx.presSingleOffline_snap : (c.presSingleOffline t uid m1 what base actor target sk b).snap = c.snap := rfl
-@[simp] theorem Ctx.presSingleOffline_routed : (c.presSingleOffline t uid m1 what base actor target sk b).routed = c.routed := rfl
-@[simp] theorem Ctx.presSingleOfflineOffline_frames : (c.presSingleOfflineOffline uid orig what base actor target sk).frames = c.frames := rfl
-@[simp] theorem Ctx.presSingleOfflineOffline_w : (c.presSingleOfflineOffline uid orig what base actor target sk).w = c.w := rfl
-@[simp] theorem Ctx.presSingleOfflineOffline_pushes : (c.presSingleOfflineOffline uid orig what base actor target sk).pushes = c.pushes := rfl
-@[simp] theorem Ctx.presSingleOfflineOffline_calls : (c.presSingleOfflineOffline uid orig what base actor target sk).calls = c.calls := rfl
-@[simp] theorem Ctx.presSingleOfflineOffline_callNo : (c.presSingleOfflineOffline uid orig what base actor target sk).callNo = c.callNo := rfl
-@[simp] theorem Ctx.presSingleOfflineOffline_failK : (c.presSingleOfflineOffline uid orig what base actor target sk).failK = c.failK := rfl
-@[simp] theorem Ctx.presSingleOfflineOffline_crashK : (c.presSingleOfflineOffline uid orig what base actor target sk).crashK = c.crashK := rfl
-@[simp] theorem Ctx.presSingleOfflineOffline_snap : (c.presSingleOfflineOffline uid orig what base actor target sk).snap = c.snap := rfl
-@[simp] theorem Ctx.presSingleOfflineOffline_routed : (c.presSingleOfflineOffline uid orig what base actor target sk).routed = c.routed := rfl
+variable (c : Ctx) (t : Topic) (orig what base cmd : String) (actor target uid : Uid) (m1 m2 : Mode) (tgt : PresMsg) (sk : Sid) (b : Bool)
+@[simp] theorem Ctx.presSubsOffline_frames : (c.presSubsOffline t what base actor target m1 m2 tgt sk b cmd).frames = c.frames := rfl
+@[simp] theorem Ctx.presSubsOffline_w : (c.presSubsOffline t what base actor target m1 m2 tgt sk b cmd).w = c.w := rfl
+@[simp] theorem Ctx.presSubsOffline_pushes : (c.presSubsOffline t what base actor target m1 m2 tgt sk b cmd).pushes = c.pushes := rfl
+@[simp] theorem Ctx.presSubsOffline_calls : (c.presSubsOffline t what base actor target m1 m2 tgt sk b cmd).calls = c.calls := rfl
+@[simp] theorem Ctx.presSubsOffline_callNo : (c.presSubsOffline t what base actor target m1 m2 tgt sk b cmd).callNo = c.callNo := rfl
+@[simp] theorem Ctx.presSubsOffline_failK : (c.presSubsOffline t what base actor target m1 m2 tgt sk b cmd).failK = c.failK := rfl
+@[simp] theorem Ctx.presSubsOffline_crashK : (c.presSubsOffline t what base actor target m1 m2 tgt sk b cmd).crashK = c.crashK := rfl
+@[simp] theorem Ctx.presSubsOffline_snap : (c.presSubsOffline t what base actor target m1 m2 tgt sk b cmd).snap = c.snap := rfl
+@[simp] theorem Ctx.presSubsOffline_routed : (c.presSubsOffline t what base actor target m1 m2 tgt sk b cmd).routed = c.routed := rfl
+@[simp] theorem Ctx.presSingleOffline_frames : (c.presSingleOffline t uid m1 what base actor target sk b cmd).frames = c.frames := rfl
+@[simp] theorem Ctx.presSingleOffline_w : (c.presSingleOffline t uid m1 what base actor target sk b cmd).w = c.w := rfl
+@[simp] theorem Ctx.presSingleOffline_pushes : (c.presSingleOffline t uid m1 what base actor target sk b cmd).pushes = c.pushes := rfl
+@[simp] theorem Ctx.presSingleOffline_calls : (c.presSingleOffline t uid m1 what base actor target sk b cmd).calls = c.calls := rfl
+@[simp] theorem Ctx.presSingleOffline_callNo : (c.presSingleOffline t uid m1 what base actor target sk b cmd).callNo = c.callNo := rfl
+@[simp] theorem Ctx.presSingleOffline_failK : (c.presSingleOffline t uid m1 what base actor target sk b cmd).failK = c.failK := rfl
+@[simp] theorem Ctx.presSingleOffline_crashK : (c.presSingleOffline t uid m1 what base actor target sk b cmd).crashK = c.crashK := rfl
+@[simp] theorem Ctx.presSingleOffline_snap : (c.presSingleOffline t uid m1 what base actor target sk b cmd).snap = c.snap := rfl
+@[simp] theorem Ctx.presSingleOffline_routed : (c.presSingleOffline t uid m1 what base actor target sk b cmd).routed = c.routed := rfl
+@[simp] theorem Ctx.presSingleOfflineOffline_frames : (c.presSingleOfflineOffline uid orig what base actor target sk cmd).frames = c.frames := rfl
+@[simp] theorem Ctx.presSingleOfflineOffline_w : (c.presSingleOfflineOffline uid orig what base actor target sk cmd).w = c.w := rfl
+@[simp] theorem Ctx.presSingleOfflineOffline_pushes : (c.presSingleOfflineOffline uid orig what base actor target sk cmd).pushes = c.pushes := rfl
+@[simp] theorem Ctx.presSingleOfflineOffline_calls : (c.presSingleOfflineOffline uid orig what base actor target sk cmd).calls = c.calls := rfl
+@[simp] theorem Ctx.presSingleOfflineOffline_callNo : (c.presSingleOfflineOffline uid orig what base actor target sk cmd).callNo = c.callNo := rfl
+@[simp] theorem Ctx.presSingleOfflineOffline_failK : (c.presSingleOfflineOffline uid orig what base actor target sk cmd).failK = c.failK := rfl
+@[simp] theorem Ctx.presSingleOfflineOffline_crashK : (c.presSingleOfflineOffline uid orig what base actor target sk cmd).crashK = c.crashK := rfl
+@[simp] theorem Ctx.presSingleOfflineOffline_snap : (c.presSingleOfflineOffline uid orig what base actor target sk cmd).snap = c.snap := rfl
+@[simp] theorem Ctx.presSingleOfflineOffline_routed : (c.presSingleOfflineOffline uid orig what base actor target sk cmd).routed = c.routed := rfl
 @[simp] theorem Ctx.infoSubsOffline_frames (q : Int) : (c.infoSubsOffline t uid what q sk).frames = c.frames := rfl
 @[simp] theorem Ctx.infoSubsOffline_w (q : Int) : (c.infoSubsOffline t uid what q sk).w = c.w := rfl
 @[simp] theorem Ctx.infoSubsOffline_pushes (q : Int) : (c.infoSubsOffline t uid what q sk).pushes = c.pushes := rfl
